@@ -186,6 +186,9 @@ func c08Oracle(sc *h1.Scenario, o *h1.Obs) []Finding {
 					scaledUp = true
 				}
 			}
+			if len(rep.ScaleErrAt) > 0 {
+				continue // a failing scale request ends the replica's cycle early; nothing is applied
+			}
 			for _, h := range eligibleUnplaced(sc, rep, ro) {
 				var sz [2]int64
 				for _, t := range sc.Targets {
